@@ -22,6 +22,130 @@ def showText : Option Str → String
   | none => "err"
   | some s => "ok " ++ hexOfStr s
 
+def showList : Option (List Str) → String
+  | none => "err"
+  | some l => l.foldl (fun acc x => acc ++ " " ++ hexOfStr x) "ok"
+
+def strsOfHex : List String → Option (List Str)
+  | [] => some []
+  | h :: r => do
+    let x ← strOfHex h
+    let xs ← strsOfHex r
+    pure (x :: xs)
+
+/-! Token streams of trees.  `PValue`: `U` unset, `N` null, `D<bits>` number, `S<hex>` string, `T`/`F`,
+`{` (`K<hex>` value)* `}`, `[` value* `]`.  `JValue`: `n`, `t`/`f`, `#<bits>`, `s<hex>`,
+`{` (`k<hex>` value)* `}`, `[` value* `]`. -/
+
+mutual
+def tokP : PValue → List String
+  | .unset => ["U"]
+  | .null => ["N"]
+  | .num b => [s!"D{b}"]
+  | .str s => ["S" ++ hexOfStr s]
+  | .bool b => [if b then "T" else "F"]
+  | .struct fs => "{" :: tokPF fs
+  | .list vs => "[" :: tokPL vs
+def tokPF : PFields → List String
+  | .nil => ["}"]
+  | .cons k v r => ("K" ++ hexOfStr k) :: (tokP v ++ tokPF r)
+def tokPL : PList → List String
+  | .nil => ["]"]
+  | .cons v r => tokP v ++ tokPL r
+end
+
+mutual
+def tokJ : JValue → List String
+  | .null => ["n"]
+  | .bool b => [if b then "t" else "f"]
+  | .num b => [s!"#{b}"]
+  | .str s => ["s" ++ hexOfStr s]
+  | .obj ms => "{" :: tokJM ms
+  | .arr es => "[" :: tokJE es
+def tokJM : JMembers → List String
+  | .nil => ["}"]
+  | .cons k v r => ("k" ++ hexOfStr k) :: (tokJ v ++ tokJM r)
+def tokJE : JElems → List String
+  | .nil => ["]"]
+  | .cons v r => tokJ v ++ tokJE r
+end
+
+def dropFirst (s : String) : String := String.ofList (s.toList.drop 1)
+
+mutual
+/-- parse one `PValue` from the token list (fuel = number of tokens) -/
+def parseP : Nat → List String → Option (PValue × List String)
+  | 0, _ => none
+  | _, [] => none
+  | fuel + 1, t :: r =>
+    if t == "U" then some (.unset, r)
+    else if t == "N" then some (.null, r)
+    else if t == "T" then some (.bool true, r)
+    else if t == "F" then some (.bool false, r)
+    else if t == "{" then (parsePF fuel r).map fun (fs, r) => (.struct fs, r)
+    else if t == "[" then (parsePL fuel r).map fun (vs, r) => (.list vs, r)
+    else if t.startsWith "D" then (dropFirst t).toNat?.map fun b => (.num b, r)
+    else if t.startsWith "S" then (strOfHex (dropFirst t)).map fun s => (.str s, r)
+    else none
+def parsePF : Nat → List String → Option (PFields × List String)
+  | 0, _ => none
+  | _, [] => none
+  | fuel + 1, t :: r =>
+    if t == "}" then some (.nil, r)
+    else if t.startsWith "K" then
+      (strOfHex (dropFirst t)).bind fun k =>
+      (parseP fuel r).bind fun (v, r) =>
+      (parsePF fuel r).map fun (fs, r) => (.cons k v fs, r)
+    else none
+def parsePL : Nat → List String → Option (PList × List String)
+  | 0, _ => none
+  | _, [] => none
+  | fuel + 1, t :: r =>
+    if t == "]" then some (.nil, r)
+    else
+      (parseP fuel (t :: r)).bind fun (v, r) =>
+      (parsePL fuel r).map fun (vs, r) => (.cons v vs, r)
+end
+
+mutual
+def parseJ : Nat → List String → Option (JValue × List String)
+  | 0, _ => none
+  | _, [] => none
+  | fuel + 1, t :: r =>
+    if t == "n" then some (.null, r)
+    else if t == "t" then some (.bool true, r)
+    else if t == "f" then some (.bool false, r)
+    else if t == "{" then (parseJM fuel r).map fun (ms, r) => (.obj ms, r)
+    else if t == "[" then (parseJE fuel r).map fun (es, r) => (.arr es, r)
+    else if t.startsWith "#" then (dropFirst t).toNat?.map fun b => (.num b, r)
+    else if t.startsWith "s" then (strOfHex (dropFirst t)).map fun s => (.str s, r)
+    else none
+def parseJM : Nat → List String → Option (JMembers × List String)
+  | 0, _ => none
+  | _, [] => none
+  | fuel + 1, t :: r =>
+    if t == "}" then some (.nil, r)
+    else if t.startsWith "k" then
+      (strOfHex (dropFirst t)).bind fun k =>
+      (parseJ fuel r).bind fun (v, r) =>
+      (parseJM fuel r).map fun (ms, r) => (.cons k v ms, r)
+    else none
+def parseJE : Nat → List String → Option (JElems × List String)
+  | 0, _ => none
+  | _, [] => none
+  | fuel + 1, t :: r =>
+    if t == "]" then some (.nil, r)
+    else
+      (parseJ fuel (t :: r)).bind fun (v, r) =>
+      (parseJE fuel r).map fun (es, r) => (.cons v es, r)
+end
+
+def showToks : Option (List String) → String
+  | none => "err"
+  | some l => l.foldl (fun acc x => acc ++ " " ++ x) "ok"
+
+def boolStr (b : Bool) : String := if b then "1" else "0"
+
 def step : List String → String
   | ["durparse", h] => match strOfHex h with
     | some s => showPair (unmarshalDuration s) | none => "bad-op"
@@ -39,6 +163,23 @@ def step : List String → String
     | some z => let (y, m, d) := civilFromDays z; s!"{y} {m} {d}" | none => "bad-op"
   | ["days", y, m, d] => match y.toInt?, m.toInt?, d.toInt? with
     | some y, some m, some d => toString (daysFromCivil y m d) | _, _, _ => "bad-op"
+  | "fmmarshal" :: hs => match strsOfHex hs with
+    | some ps => showText (marshalFieldMask ps) | none => "bad-op"
+  | ["fmunmarshal", h] => match strOfHex h with
+    | some s => showList (unmarshalFieldMask s) | none => "bad-op"
+  | ["camel", h] => match strOfHex h with
+    | some s => hexOfStr (jsonCamelCase s) | none => "bad-op"
+  | ["snake", h] => match strOfHex h with
+    | some s => hexOfStr (jsonSnakeCase s) | none => "bad-op"
+  | ["fullname", h] => match strOfHex h with
+    | some s => boolStr (fullNameValid s) | none => "bad-op"
+  | "valmarshal" :: toks => match parseP (toks.length + 1) toks with
+    | some (v, []) => showToks ((marshalValue v).map tokJ) | _ => "bad-op"
+  | "valunmarshal" :: toks => match parseJ (toks.length + 1) toks with
+    | some (j, []) => showToks ((unmarshalValue j).map tokP) | _ => "bad-op"
+  | ["dispatch", parent, short] =>
+    let sh : Option Wkt → String := fun o => match o with | none => "none" | some w => reprStr w
+    s!"{sh (wellKnownTypeMarshaler parent short)} {sh (wellKnownTypeUnmarshaler parent short)}"
   | _ => "bad-op"
 
 end WktJsonDriver
